@@ -331,9 +331,14 @@ func Harness_C15_leave_timeout_step() {
 		t.terminateCallInProgress(true)
 	} else {
 		s := w.sess[what]
-		s.inflightReqs.Add(1)
-		t.unregisterSession(&ClientComMessage{Leave: &MsgClientLeave{Id: "l1", Topic: w.uids[what^2].UserId()}, Id: "l1",
-			AsUser: w.uids[what].UserId(), Original: w.uids[what^2].UserId(), RcptTo: t.name, Timestamp: types.TimeNow(), sess: s, init: true})
+		if verifNondetBool("connectionDropped") {
+			// the whole session goes away: the topic gets a bare notice without a request or an acting user
+			t.unregisterSession(&ClientComMessage{sess: s, init: false})
+		} else {
+			s.inflightReqs.Add(1)
+			t.unregisterSession(&ClientComMessage{Leave: &MsgClientLeave{Id: "l1", Topic: w.uids[what^2].UserId()}, Id: "l1",
+				AsUser: w.uids[what].UserId(), Original: w.uids[what^2].UserId(), RcptTo: t.name, Timestamp: types.TimeNow(), sess: s, init: true})
+		}
 	}
 	o := w.observe(oldRows)
 	isParty := what == 0 || (what == 2 && w.state == 2)
